@@ -6,7 +6,7 @@ from .. import driver, explore, inject, rungrid, vk as vkmod
 ID = "C16"
 LEVEL = "fault_enumeration"
 RULE = ("scenarios {1 command; 1 experiment; chain of 2; 2 parallel + dependent with -j2; experiment + combine; experiment group -j2; "
-        "--stop-early with a failing task and a sibling in flight "
+        "--stop-early with a failing task and a sibling in flight; a COND file with include() "
         "(thorough: + all n<=3 shapes)} x every deviation-0 schedule (completion order; deviation-1 schedules - early exits, batched exits - for single-task scenarios) x ConductorAbort raised at every line event of "
         "Conductor code from the return of register_signal_handlers() to process exit - exactly how an exception raised by the "
         "SIGINT/SIGTERM handler surfaces in the interrupted frame; oracle per injected run: exit != 0 with the abort message and no "
@@ -43,6 +43,8 @@ def scenarios(tier):
         # --stop-early with a failing task while a sibling is in flight: the ordinary stop-early path is already terminating
         # processes when the interrupt arrives
         {"g": [[1, 2], [], []], "kinds": ["cmd", "cmd", "cmd"], "pars": [False, True, True], "jobs": 2, "fails": {"1": ["exit", 3]}, "stop_early": True},
+        # a COND file that include()s a settings file (the interrupt can arrive while the included file is being evaluated)
+        {"g": [[1], []], "kinds": ["cmd", "exp"], "jobs": 1, "with_include": True},
         # git project with cached versions at ancestor commits: planning talks to git (is_ancestor / get_distance) before anything runs
         {"g": [[1, 2], [], []], "kinds": ["cmd", "exp", "exp"], "pars": [False, False, False], "jobs": 1, "git": True,
          "cached": {"1": "c1" * 20, "2": "c2" * 20}, "two_versions": True, "empty_index": True},
@@ -64,7 +66,7 @@ def items(tier):
         for ch in range(NCHUNKS):
             out.append({"case": c, "chunk": ch, "scn_index": i, "bound": bound})
     # second granularity: exactly the instructions at which CPython runs Python-level signal handlers in Python code
-    for i, c in enumerate(scenarios(tier)[:7]):
+    for i, c in enumerate(scenarios(tier)[:8]):
         for ch in range(NCHUNKS // 3):
             out.append({"case": c, "chunk": ch, "nchunks": NCHUNKS // 3, "scn_index": i, "bound": 0, "granularity": "evalbreaker"})
     # third family: the signal is taken by whatever disposition the process has at that moment - for every disposition `cond` can
